@@ -3,6 +3,7 @@ From Coq Require Import ZArith QArith Qcanon List Bool Arith.
 From QV.Core Require Import OF QcOF Sums Mat.
 From QV.Exec Require Import Base.
 From QV.Model Require Import Multinomial C19_Expect C19_ErrFormulas.
+From QV.Proofs Require Import C19_ErrFormulas.
 Import ListNotations.
 
 Notation Fq := Qc_OF.
@@ -112,99 +113,175 @@ Definition op_mean_var : opfun := fun _ qs => Ok [mean Fq qs; var_ddof1 Fq qs].
 Definition op_mse_norm : opfun := fun _ qs => Ok [mse_general_norm Fq qs].
 
 (* ---- tomography level ----
-   zs = ty :: eq :: nv :: nr :: J :: d2 :: mo :: extra ;  qs = A (nr x nv) ++ b (nr) ++ v (nv) ++ rest *)
-Record hdr := { h_ty : ttype; h_eq : bool; h_nv : nat; h_nr : nat; h_J : nat; h_d2 : nat; h_mo : nat;
+   zs = ty :: eq :: nv :: nr :: J :: d2 :: mo :: m_0 :: ... :: m_{J-1} :: extra ;  qs = A (nr x nv) ++ b (nr) ++ v (nv) ++ rest
+   ms = [m_j] are the numbers of outcomes of the schedules (tomography.num_outcomes(j)); Err 1 when their sum is not nr *)
+Record hdr := { h_ty : ttype; h_eq : bool; h_nv : nat; h_nr : nat; h_ms : list nat; h_d2 : nat; h_mo : nat;
                 h_A : rmat; h_b : rvec; h_v : rvec; h_extra : list Z; h_rest : list Qc }.
+Definition h_J (h : hdr) : nat := length (h_ms h).
 Definition read_hdr (zs : list Z) (qs : list Qc) : option hdr :=
   match zs with
-  | ty :: eq :: nv :: nr :: J :: d2 :: mo :: extra =>
+  | ty :: eq :: nv :: nr :: J :: d2 :: mo :: tl =>
       let nv' := nz nv in let nr' := nz nr in
-      Some {| h_ty := ttype_of ty; h_eq := zb eq; h_nv := nv'; h_nr := nr'; h_J := nz J; h_d2 := nz d2; h_mo := nz mo;
+      Some {| h_ty := ttype_of ty; h_eq := zb eq; h_nv := nv'; h_nr := nr'; h_ms := map nz (take (nz J) tl); h_d2 := nz d2; h_mo := nz mo;
               h_A := mflat nr' nv' (take (nr' * nv') qs);
               h_b := vlist (take nr' (drop (nr' * nv') qs));
               h_v := vlist (take nv' (drop (nr' * nv' + nr') qs));
-              h_extra := extra;
+              h_extra := drop (nz J) tl;
               h_rest := drop (nr' * nv' + nr' + nv') qs |}
   | _ => None end.
+Definition sizes_ok (h : hdr) : bool := Nat.eqb (sizes_sum (h_ms h)) (h_nr h).
 
-(* rest = [eps] : the J x m matrix of calc_prob_dists, Err 1 when the reshape fails *)
+(* the probability rows, materialised: the model function pds_of_raw on the materialised stacked vector A v + b *)
+Definition pd_rows (h : hdr) (eps : Qc) : list (nat * rvec) :=
+  let pv := vfz (h_nr h) (affine Fq (h_nv h) (h_A h) (h_b h) (h_v h)) in
+  map (fun mp : nat * rvec => (fst mp, vfz (fst mp) (snd mp))) (pds_of_raw Fq eps pv O (h_ms h)).
+
+(* rest = [eps] : the rows of calc_prob_dists, concatenated *)
 Definition op_prob_dists : opfun := fun zs qs =>
   match read_hdr zs qs with
-  | Some h => match reshape_rows (h_nr h) (h_J h), h_rest h with
-      | Some m, eps :: _ =>
-          Ok (concat (map (fun j => outv m (prob_dists Fq eps (h_nv h) m (h_A h) (h_b h) (h_v h) j)) (seq 0 (h_J h))))
-      | None, _ => Err 1
+  | Some h => match h_rest h with
+      | eps :: _ => if sizes_ok h then Ok (concat (map (fun mp : nat * rvec => outv (fst mp) (snd mp)) (pd_rows h eps))) else Err 1
+      | _ => Err (-1) end
+  | None => Err (-1) end.
+
+(* block-diagonal covariance from the materialised rows: the model functions cov_blocks / dsum *)
+Definition sigma_of (h : hdr) (eps : Qc) (nsv : rvec) : rmat :=
+  fz (h_nr h) (h_nr h)
+     (dsum Fq (map (fun sb : nat * rmat => (fst sb, fz (fst sb) (fst sb) (snd sb))) (cov_blocks Fq nsv O (pd_rows h eps)))).
+
+(* rest = eps :: ns (len given in extra = [lenNs]) : calc_covariance_mat_total ; Err 4 ns too short *)
+Definition op_tomo_cov_total : opfun := fun zs qs =>
+  match read_hdr zs qs with
+  | Some h => match h_rest h, h_extra h with
+      | eps :: ns, [ln] =>
+          if negb (sizes_ok h) then Err 1 else
+          if Nat.ltb (nz ln) (h_J h) then Err 4 else
+          Ok (outm (h_nr h) (h_nr h) (tomo_cov_total Fq eps (h_nv h) (h_ms h) (h_A h) (h_b h) (h_v h) (vlist ns)))
       | _, _ => Err (-1) end
   | None => Err (-1) end.
 
-(* frozen list of the J probability rows *)
-Definition pd_rows (h : hdr) (eps : Qc) (m : nat) : list rvec :=
-  let pv := vfz (h_nr h) (affine Fq (h_nv h) (h_A h) (h_b h) (h_v h)) in
-  map (fun j => vfz m (trunc_norm_row Fq eps m (fun x => pv (j * m + x)%nat))) (seq 0 (h_J h)).
+(* V = L Sigma L^T materialised, and the analytical value: the MODEL function mse_analytical_of_cov on it *)
+Definition tomo_V (h : hdr) (eps : Qc) (nsv : rvec) (L : rmat) : rmat :=
+  let nv := h_nv h in let nr := h_nr h in
+  let LS := fz nv nr (mmul nr L (sigma_of h eps nsv)) in
+  fz nv nv (mmul nr LS (mT L)).
+Definition tomo_ana (h : hdr) (eps : Qc) (nsv : rvec) (L : rmat) (mode : bool) : Qc :=
+  mse_analytical_of_cov Fq (h_ty h) mode (h_eq h) (h_d2 h) (h_mo h) (h_nv h) (tomo_V h eps nsv L).
 
-(* rest = eps :: ns (len given in extra = [lenNs]) : calc_covariance_mat_total ; Err 1 reshape, Err 4 ns too short *)
-Definition op_tomo_cov_total : opfun := fun zs qs =>
-  match read_hdr zs qs with
-  | Some h => match reshape_rows (h_nr h) (h_J h), h_rest h, h_extra h with
-      | Some m, eps :: ns, [ln] =>
-          if Nat.ltb (nz ln) (h_J h) then Err 4 else
-          let nsv := vlist ns in
-          Ok (outm (h_nr h) (h_nr h) (tomo_cov_total Fq eps (h_nv h) (h_J h) m (h_A h) (h_b h) (h_v h) nsv))
-      | None, _, _ => Err 1
-      | _, _, _ => Err (-1) end
-  | None => Err (-1) end.
+(* ---- the materialised evaluation IS the model function the theorems of Props/C19.v talk about (axiom-free) ---- *)
+Lemma fz_spec m n M : meq m n (fz m n M) M. Proof. intros i j Hi Hj. now apply freeze_spec. Qed.
+Lemma vfz_spec n v : veq n (vfz n v) v. Proof. intros i Hi. now apply vfreeze_spec. Qed.
+Lemma pds_eq_map_vfz (l : list (nat * rvec)) :
+  pds_eq Fq (map (fun mp : nat * rvec => (fst mp, vfz (fst mp) (snd mp))) l) l.
+Proof. induction l as [|[m p] t IH]; cbn [map]; constructor; [|exact IH]. cbn [fst snd]. split; [reflexivity|apply vfz_spec]. Qed.
+Lemma blocks_eq_map_fz (l : list (nat * rmat)) :
+  blocks_eq Fq (map (fun sb : nat * rmat => (fst sb, fz (fst sb) (fst sb) (snd sb))) l) l.
+Proof. induction l as [|[m p] t IH]; cbn [map]; constructor; [|exact IH]. cbn [fst snd]. split; [reflexivity|apply fz_spec]. Qed.
+Lemma sizes_ok_eq h : sizes_ok h = true -> sizes_sum (h_ms h) = h_nr h.
+Proof. unfold sizes_ok. intros H. now apply Nat.eqb_eq. Qed.
+Lemma pd_rows_eq h eps : sizes_ok h = true ->
+  pds_eq Fq (pd_rows h eps) (tomo_pds Fq eps (h_nv h) (h_ms h) (h_A h) (h_b h) (h_v h)).
+Proof. intros Hs. unfold pd_rows, tomo_pds. eapply pds_eq_trans; [apply pds_eq_map_vfz|].
+  apply pds_of_raw_ext. intros i Hi. cbn [Nat.add]. apply vfz_spec. now rewrite <- (sizes_ok_eq h Hs). Qed.
+Lemma sigma_of_eq h eps nsv : sizes_ok h = true ->
+  meq (h_nr h) (h_nr h) (sigma_of h eps nsv) (tomo_cov_total Fq eps (h_nv h) (h_ms h) (h_A h) (h_b h) (h_v h) nsv).
+Proof. intros Hs i j Hi Hj. unfold sigma_of, tomo_cov_total. unfold fz at 1. rewrite freeze_spec by assumption.
+  rewrite (dsum_ext Fq _ _ (blocks_eq_map_fz _)).
+  apply dsum_ext. apply cov_blocks_ext. now apply pd_rows_eq. Qed.
+Lemma tomo_V_eq h eps nsv L : sizes_ok h = true ->
+  meq (h_nv h) (h_nv h) (tomo_V h eps nsv L)
+      (cov_linear Fq (h_nr h) L (tomo_cov_total Fq eps (h_nv h) (h_ms h) (h_A h) (h_b h) (h_v h) nsv)).
+Proof. intros Hs i j Hi Hj. unfold tomo_V, cov_linear, conjugate. unfold fz at 1. rewrite freeze_spec by assumption.
+  apply (mmul_ext (h_nr h) _ _ _ _ (h_nv h) (h_nv h)); [|apply meq_refl|exact Hi|exact Hj].
+  intros a c Ha Hc. unfold fz at 1. rewrite freeze_spec by assumption.
+  apply (mmul_ext (h_nr h) _ _ _ _ (h_nv h) (h_nr h)); [apply meq_refl|now apply sigma_of_eq|exact Ha|exact Hc]. Qed.
+(* c19.tomo_mse, third output: exactly  mse_linear_analytical  of the model, on the model's  tomo_cov_total *)
+Theorem tomo_ana_spec h eps nsv L mode : sizes_ok h = true ->
+  tomo_ana h eps nsv L mode
+  = mse_linear_analytical Fq (h_ty h) mode (h_eq h) (h_d2 h) (h_mo h) (h_nv h) (h_nr h) L
+      (tomo_cov_total Fq eps (h_nv h) (h_ms h) (h_A h) (h_b h) (h_v h) nsv).
+Proof. intros Hs. unfold tomo_ana, mse_linear_analytical. apply (mse_analytical_of_cov_ext Fq). now apply tomo_V_eq. Qed.
+(* fourth output: the specification side  mse_object_exact  (= exact expectation by theorem C19_mse_object_exact) *)
+Definition tomo_exact (h : hdr) (eps : Qc) (nsv : rvec) (L : rmat) : Qc :=
+  let V := tomo_V h eps nsv L in
+  (mtrace (h_nv h) V + mtrace (h_d2 h) (conjugate Fq (h_nv h) (implied_S Fq (h_ty h) (h_eq h) (h_d2 h) (h_mo h)) V))%Qc.
+Theorem tomo_exact_spec h eps nsv L : sizes_ok h = true ->
+  tomo_exact h eps nsv L
+  = mse_object_exact Fq (h_d2 h) (h_nv h) (h_nr h) (implied_S Fq (h_ty h) (h_eq h) (h_d2 h) (h_mo h)) L
+      (tomo_cov_total Fq eps (h_nv h) (h_ms h) (h_A h) (h_b h) (h_v h) nsv).
+Proof. intros Hs. unfold tomo_exact, mse_object_exact, mse_var.
+  rewrite (mtrace_ext (h_nv h) _ _ (tomo_V_eq h eps nsv L Hs)).
+  rewrite (mtrace_ext (h_d2 h) _ _ (conjugate_ext Fq (h_d2 h) (h_nv h) _ _ _ _ (meq_refl _ _ _) (tomo_V_eq h eps nsv L Hs))).
+  reflexivity. Qed.
+(* fifth / sixth output: the model's mse_empi / mse_empi_closed *)
+Theorem tomo_empi_spec h eps nsv : sizes_ok h = true ->
+  mse_empi_pds Fq nsv O (pd_rows h eps) = mse_empi Fq eps (h_nv h) (h_ms h) (h_A h) (h_b h) (h_v h) nsv /\
+  mse_empi_closed_pds Fq nsv O (pd_rows h eps) = mse_empi_closed Fq eps (h_nv h) (h_ms h) (h_A h) (h_b h) (h_v h) nsv.
+Proof. intros Hs. split; [apply mse_empi_pds_ext|apply mse_empi_closed_pds_ext]; now apply pd_rows_eq. Qed.
 
-(* block-diagonal covariance from frozen rows *)
-Definition sigma_of (h : hdr) (eps : Qc) (m : nat) (nsv : rvec) : rmat :=
-  let rows := pd_rows h eps m in
-  fz (h_nr h) (h_nr h)
-     (dsum Fq (map (fun jr => (m, fz m m (cov_mat Fq (nsv (fst jr)) (snd jr)))) (combine (seq 0 (h_J h)) rows))).
-
-(* extra = [mode]; rest = eps :: ns(J) ++ L (nv x nr)
-   -> [ max|L A - I| ; mse_var ; mse_linear_analytical(ty, mode, eq) ; exact MSE of the object (implied_S) ;
-        mse_empi (trace form) ; mse_empi (closed form) ] ++ V = L Sigma L^T (nv x nv) *)
+(* rest = eps :: ns(J) ++ L (nv x nr)
+   -> [ max|L A - I| ; mse_var ; mse_linear_analytical(ty, mode=var, eq) ; mse_linear_analytical(ty, mode=qoperation, eq) ;
+        exact MSE of the object (implied_S) ; mse_empi (trace form) ; mse_empi (closed form) ] ++ V = L Sigma L^T (nv x nv) *)
 Definition op_tomo_mse : opfun := fun zs qs =>
   match read_hdr zs qs with
-  | Some h => match reshape_rows (h_nr h) (h_J h), h_rest h, h_extra h with
-      | Some m, eps :: r, [mode] =>
-          let nv := h_nv h in let nr := h_nr h in let J := h_J h in let d2 := h_d2 h in
+  | Some h => match h_rest h with
+      | eps :: r =>
+          if negb (sizes_ok h) then Err 1 else
+          let nv := h_nv h in let nr := h_nr h in let J := h_J h in
           let nsv := vlist (take J r) in
           let L := mflat nv nr (drop J r) in
-          let Sigma := sigma_of h eps m nsv in
-          let LS := fz nv nr (mmul nr L Sigma) in
-          let V := fz nv nv (mmul nr LS (mT L)) in
-          let tr_conj (S : rmat) : Qc :=
-              let SV := fz d2 nv (mmul nv S V) in mtrace d2 (mmul nv SV (mT S)) in
-          let msev := mtrace nv V in
-          let ana := match h_ty h with
-                     | POVMT => if zb mode && h_eq h then (msev + tr_conj (matS Fq d2))%Qc else msev
-                     | _ => msev end in
-          let exact := (msev + tr_conj (implied_S Fq (h_ty h) (h_eq h) d2 (h_mo h)))%Qc in
-          Ok (resid_id nv nr L (h_A h) :: msev :: ana :: exact
-              :: mse_empi Fq eps nv J m (h_A h) (h_b h) (h_v h) nsv
-              :: mse_empi_closed Fq eps nv J m (h_A h) (h_b h) (h_v h) nsv
+          let V := tomo_V h eps nsv L in
+          let rows := pd_rows h eps in
+          Ok (resid_id nv nr L (h_A h) :: mtrace nv V
+              :: mse_analytical_of_cov Fq (h_ty h) false (h_eq h) (h_d2 h) (h_mo h) nv V      (* = tomo_ana h eps nsv L false *)
+              :: mse_analytical_of_cov Fq (h_ty h) true (h_eq h) (h_d2 h) (h_mo h) nv V       (* = tomo_ana h eps nsv L true *)
+              :: (mtrace nv V + mtrace (h_d2 h) (conjugate Fq nv (implied_S Fq (h_ty h) (h_eq h) (h_d2 h) (h_mo h)) V))%Qc   (* = tomo_exact *)
+              :: mse_empi_pds Fq nsv O rows
+              :: mse_empi_closed_pds Fq nsv O rows
               :: outm nv nv V)
-      | None, _, _ => Err 1
-      | _, _, _ => Err (-1) end
+      | _ => Err (-1) end
   | None => Err (-1) end.
+(* the third to fifth outputs are, by unfolding, tomo_ana ... false / tomo_ana ... true / tomo_exact (V is shared so that the
+   extracted code materialises it once) *)
+Lemma op_tomo_mse_outputs h eps nsv L :
+  mse_analytical_of_cov Fq (h_ty h) false (h_eq h) (h_d2 h) (h_mo h) (h_nv h) (tomo_V h eps nsv L) = tomo_ana h eps nsv L false /\
+  mse_analytical_of_cov Fq (h_ty h) true (h_eq h) (h_d2 h) (h_mo h) (h_nv h) (tomo_V h eps nsv L) = tomo_ana h eps nsv L true /\
+  (mtrace (h_nv h) (tomo_V h eps nsv L)
+   + mtrace (h_d2 h) (conjugate Fq (h_nv h) (implied_S Fq (h_ty h) (h_eq h) (h_d2 h) (h_mo h)) (tomo_V h eps nsv L)))%Qc
+  = tomo_exact h eps nsv L.
+Proof. split; [reflexivity|]. split; reflexivity. Qed.
 
-(* extra = [lenNs]; rest = eps :: ns : calc_mse_empi_dists_analytical with a data_num_list of any length (Err 4 = IndexError) *)
+(* extra = [lenNs]; rest = eps :: ns : calc_mse_empi_dists_analytical with a data_num_list of any length (Err 4 = IndexError):
+   the loop runs over enumerate(data_num_list) *)
 Definition op_tomo_mse_empi : opfun := fun zs qs =>
   match read_hdr zs qs with
-  | Some h => match reshape_rows (h_nr h) (h_J h), h_rest h, h_extra h with
-      | Some m, eps :: ns, [ln] =>
+  | Some h => match h_rest h, h_extra h with
+      | eps :: ns, [ln] =>
+          if negb (sizes_ok h) then Err 1 else
           if Nat.ltb (h_J h) (nz ln) then Err 4 else
-          Ok [mse_empi Fq eps (h_nv h) (nz ln) m (h_A h) (h_b h) (h_v h) (vlist ns)]
-      | None, _, _ => Err 1
-      | _, _, _ => Err (-1) end
+          Ok [mse_empi_pds Fq (vlist ns) O (take (nz ln) (pd_rows h eps))]
+      | _, _ => Err (-1) end
   | None => Err (-1) end.
 
+(* Fisher matrices: the MODEL functions fisher_of_raw / fisher_total_of_raw on the materialised stacked vector A v + b *)
+Definition raw_frozen (h : hdr) : rvec := vfz (h_nr h) (affine Fq (h_nv h) (h_A h) (h_b h) (h_v h)).
+Theorem exec_fisher_spec h eps8 j : sizes_ok h = true -> (j < length (h_ms h))%nat ->
+  mres_mat_eq Fq (fisher_of_raw Fq eps8 (raw_frozen h) (h_A h) (h_ms h) j)
+                 (tomo_fisher Fq eps8 (h_nv h) (h_ms h) j (h_A h) (h_b h) (h_v h)).
+Proof. intros Hs Hj. unfold tomo_fisher. apply fisher_of_raw_ext; [exact Hj|].
+  rewrite (sizes_ok_eq h Hs). apply vfz_spec. Qed.
+Theorem exec_fisher_total_spec h eps8 w : sizes_ok h = true ->
+  mres_mat_eq Fq (fisher_total_of_raw Fq eps8 (raw_frozen h) (h_A h) (h_ms h) w)
+                 (tomo_fisher_total Fq eps8 (h_nv h) (h_ms h) (h_A h) (h_b h) (h_v h) w).
+Proof. intros Hs. unfold tomo_fisher_total. apply fisher_total_of_raw_ext.
+  rewrite (sizes_ok_eq h Hs). apply vfz_spec. Qed.
 (* extra = [j]; rest = [eps8] *)
 Definition op_tomo_fisher : opfun := fun zs qs =>
   match read_hdr zs qs with
   | Some h => match h_rest h, h_extra h with
       | eps8 :: _, [j] =>
-          out_mres (h_nv h) (h_nv h) (tomo_fisher Fq eps8 (h_nv h) (h_nr h) (h_J h) (nz j) (h_A h) (h_b h) (h_v h))
+          if negb (sizes_ok h) then Err 1 else
+          out_mres (h_nv h) (h_nv h) (fisher_of_raw Fq eps8 (raw_frozen h) (h_A h) (h_ms h) (nz j))
       | _, _ => Err (-1) end
   | None => Err (-1) end.
 (* rest = eps8 :: w(J) *)
@@ -212,8 +289,8 @@ Definition op_tomo_fisher_total : opfun := fun zs qs =>
   match read_hdr zs qs with
   | Some h => match h_rest h with
       | eps8 :: w =>
-          out_mres (h_nv h) (h_nv h)
-            (tomo_fisher_total Fq eps8 (h_nv h) (h_nr h) (h_J h) (h_A h) (h_b h) (h_v h) (vlist w))
+          if negb (sizes_ok h) then Err 1 else
+          out_mres (h_nv h) (h_nv h) (fisher_total_of_raw Fq eps8 (raw_frozen h) (h_A h) (h_ms h) (vlist w))
       | _ => Err (-1) end
   | None => Err (-1) end.
 (* rest = eps8 :: N :: ns(J) ++ Minv (nv x nv)
@@ -222,10 +299,11 @@ Definition op_tomo_cr : opfun := fun zs qs =>
   match read_hdr zs qs with
   | Some h => match h_rest h with
       | eps8 :: N :: r =>
+          if negb (sizes_ok h) then Err 1 else
           let nv := h_nv h in let J := h_J h in let d2 := h_d2 h in
           let nsv := vlist (take J r) in
           let Minv := mflat nv nv (drop J r) in
-          match tomo_fisher_total Fq eps8 nv (h_nr h) J (h_A h) (h_b h) (h_v h) (cr_weights Fq N nsv) with
+          match fisher_total_of_raw Fq eps8 (raw_frozen h) (h_A h) (h_ms h) (cr_weights Fq N nsv) with
           | MErr c => Err (Z.of_nat c)
           | MOk Ft => let Ft := fz nv nv Ft in
               Ok [resid_id nv nv Ft Minv; cr_var Fq nv N Minv; cr_analytical Fq (h_ty h) (h_eq h) d2 nv N Minv;
